@@ -74,3 +74,14 @@ pub fn prefs_dump() -> String {
     });
 }
 
+/// What each lazily loaded rule table currently holds, as JSON.
+pub fn cache_state() -> String {
+    use crate::speech::*;
+    let mut parts = Vec::new();
+    INTENT_RULES.with(|r| parts.push(format!("\"intent\":{}", r.borrow().verif_json())));
+    SPEECH_RULES.with(|r| parts.push(format!("\"speech\":{}", r.borrow().verif_json())));
+    OVERVIEW_RULES.with(|r| parts.push(format!("\"overview\":{}", r.borrow().verif_json())));
+    NAVIGATION_RULES.with(|r| parts.push(format!("\"navigation\":{}", r.borrow().verif_json())));
+    BRAILLE_RULES.with(|r| parts.push(format!("\"braille\":{}", r.borrow().verif_json())));
+    return format!("{{{}}}", parts.join(","));
+}
